@@ -186,7 +186,10 @@ Inductive sop :=
 | SCommit (revs : list nat) (hint : list name) (t : option nat)
     (* a write group adding [revs] (commit, fetch); [hint] = the packs the real autopack combined
        (which of several equally large packs are taken depends on the ordering of Pack objects) *)
-| SPack                                  (* Repository.pack() *)
+| SPack (aborted : bool)
+    (* Repository.pack(); [aborted] = the packer found "single pack was already optimally packed"
+       (the md5 of the repacked bytes equals the old name: outside the model, taken from the run;
+       accepted only where the code can take that branch: 2a, exactly one pack) *)
 | SEmpty.                                (* a write group without data *)
 
 Definition ixs_of (chk : bool) : list ext := [ERix; EIix; ETix; ESix] ++ (if chk then [ECix] else []).
@@ -262,18 +265,19 @@ Definition plan_op (chk : bool) (w : world) (o : sop) : option (list op * world)
           else None
       | AutoPack.Fail _ => None
       end
-  | SPack =>
+  | SPack aborted =>
       let listed := names s in
       (* pack(): _already_packed() = not (format.pack_compresses or len(_names) > 1) *)
-      if negb chk && (List.length listed <=? 1) then Some ([], w)
+      if negb chk && (List.length listed <=? 1) then (if aborted then None else Some ([], w))
       else match listed with
-      | [] => Some (save_names [] (clear_list s []), w)   (* no packer runs; pack-names is rewritten *)
+      | [] => if aborted then None
+              else Some (save_names [] (clear_list s []), w)   (* no packer runs; pack-names is rewritten *)
       | _ =>
         let y := wnext w in
         let plan := sort_nat listed in
-        if chk && (List.length listed =? 1) && forallb (fun n => popt (tab_get (wtab w) n)) listed
-        then (* GCCHKPacker: "single pack was already optimally packed" -> new_pack.abort() *)
-          Some (abort_pack y, W s (wtab w) (S y))
+        if aborted then
+          (* GCCHKPacker._create_pack_from_packs: len(self.packs) == 1 and old name == new hash -> new_pack.abort() *)
+          if chk && (List.length listed =? 1) then Some (abort_pack y, W s (wtab w) (S y)) else None
         else
           let tab1 := (y, PI (sort_nat (flat_map (content_of (wtab w)) plan)) true) :: wtab w in
           Some (pack_prog ixs oixs y listed plan (clear_list s plan), W s tab1 (S y))
